@@ -7,9 +7,12 @@ CONSTANTS
   Loop = "distance"
   Variant = "lib"
   SwapVariant = "aliased"
-  MaxEpaIter = 10
+  OrientStart = TRUE
+  MaxEpaIter = 12
   RequireProperStart = TRUE
   ClosestTies = "any"
   R = 1
 INVARIANT FacesOnHull
 INVARIANT DoneSupports
+INVARIANT EpaTerminates
+INVARIANT EpaDepthExact
